@@ -7,6 +7,7 @@
   decided by the correspondence harness only.
 -/
 import TypedpyModel.Sem.Deser
+import TypedpyModel.Spec.SerFrag
 namespace Typedpy
 
 def mapO {α β} (g : α → Option β) : List α → Option (List β)
@@ -159,7 +160,8 @@ def idScalar : FieldDecl → Bool
 
 mutual
 /-- scalars with every constraint, enums, Array / Deque / Tuple (homogeneous — with uniqueItems when
-    the items are plain scalars — or positional) and nested Structure classes, at any depth -/
+    the items are plain scalars — or positional), Set of strings, Map from strings, and nested
+    Structure classes, at any depth -/
 def exactDecl : FieldDecl → Bool
   | .number _ => true
   | .integer _ => true
@@ -176,9 +178,9 @@ def exactDecl : FieldDecl → Bool
     !c.inline && c.accepts.contains c.name && decide ((fields.map (·.1)).Nodup) && exactFields fields
   | .seqAny _ _ => false
   | .setAny _ _ => false
-  | .setOf _ _ _ => false
+  | .setOf _ f _ => isStringDecl f
   | .mapAny _ => false
-  | .mapOf _ _ _ => false
+  | .mapOf kf vf _ => isStringDecl kf && exactDecl vf
   | .anyOf _ => false
   | .oneOf _ => false
   | .allOf _ => false
@@ -197,7 +199,8 @@ termination_by structural fs => fs
 end
 
 mutual
-/-- a JSON document: null / bool / number / string / array / object with string keys -/
+/-- a JSON document: null / bool / number / string / array / object with pairwise different string
+    keys (a Python `dict` read from JSON cannot hold one key twice) -/
 def strictJson : PyVal → Bool
   | .none => true
   | .bool _ => true
@@ -205,7 +208,7 @@ def strictJson : PyVal → Bool
   | .float _ => true
   | .str _ => true
   | .list xs => strictJsonList xs
-  | .dict kvs => strictJsonPairs kvs
+  | .dict kvs => strKeysDistinct kvs && strictJsonPairs kvs
   | _ => false
 termination_by structural v => v
 def strictJsonList : List PyVal → Bool
